@@ -1172,3 +1172,101 @@ func ruleCosmosSwarmWired(r *Run, rule string) {
 	}
 	r.Check(rule, "cosmos:swarm-assigned-before-components-are-copied", bpos, bad == "", "%s", orOK(bad, "every swarm assignment precedes the copies of its component"))
 }
+
+// ruleBatchResponseExamined (D44): the cosmos client reports a transactional batch that the service refused as a whole —
+// an item was changed by somebody else (stale ETag), or is gone — only in the response (HTTP 207, Success == false,
+// per-operation status codes), with a nil error. Every ExecuteTransactionalBatch call of the vault therefore binds the
+// response and the function reads its Success or OperationResults, in place or through a function of the package it
+// passes the response to. Delete threw the response away and reported success with every item still stored.
+func ruleBatchResponseExamined(r *Run, rule string) {
+	pkg := r.P.Pkgs[pkgCosmos]
+	if pkg == nil {
+		r.Unresolved(rule, "package cosmosdb")
+		return
+	}
+	info := pkg.TypesInfo
+	readsResponse := func(body ast.Node, obj types.Object) bool {
+		found := false
+		ast.Inspect(body, func(x ast.Node) bool {
+			if sel, ok := x.(*ast.SelectorExpr); ok && (sel.Sel.Name == "Success" || sel.Sel.Name == "OperationResults") && ObjOf(info, sel.X) == obj {
+				found = true
+			}
+			return !found
+		})
+		return found
+	}
+	// functions of the package that examine a response parameter
+	examiners := map[string]bool{}
+	for _, fn := range r.P.sortedFuncs() {
+		if fn.Pkg != pkg || fn.Decl.Body == nil || fn.Decl.Type.Params == nil {
+			continue
+		}
+		for _, f := range fn.Decl.Type.Params.List {
+			for _, nm := range f.Names {
+				o := info.ObjectOf(nm)
+				if o != nil && strings.HasSuffix(ShortType(o.Type()), "TransactionalBatchResponse") && readsResponse(fn.Decl.Body, o) {
+					examiners[fn.Key] = true
+				}
+			}
+		}
+	}
+	n := 0
+	ord := map[string]int{}
+	for _, fn := range r.P.sortedFuncs() {
+		if fn.Pkg != pkg || fn.Decl.Body == nil {
+			continue
+		}
+		file := r.P.Fset.Position(fn.Decl.Pos()).Filename
+		if strings.HasSuffix(file, "_test.go") || strings.HasSuffix(file, "fake_storage.go") || strings.HasSuffix(file, "testing.go") {
+			continue
+		}
+		ast.Inspect(fn.Decl.Body, func(x ast.Node) bool {
+			as, ok := x.(*ast.AssignStmt)
+			var call *ast.CallExpr
+			if ok && len(as.Rhs) == 1 {
+				call, _ = ast.Unparen(as.Rhs[0]).(*ast.CallExpr)
+			}
+			if es, isES := x.(*ast.ExprStmt); isES {
+				call, _ = es.X.(*ast.CallExpr)
+				as = nil
+			}
+			if call == nil {
+				return true
+			}
+			sel, isSel := ast.Unparen(call.Fun).(*ast.SelectorExpr)
+			if !isSel || sel.Sel.Name != "ExecuteTransactionalBatch" {
+				return true
+			}
+			n++
+			ord[fn.Key]++
+			okR, why := false, "the response is discarded"
+			if as != nil && len(as.Lhs) == 2 {
+				if o := ObjOf(info, as.Lhs[0]); o != nil {
+					if readsResponse(fn.Decl.Body, o) {
+						okR = true
+					} else {
+						why = "the response is bound to " + o.Name() + " but neither its Success nor its OperationResults are read"
+						ast.Inspect(fn.Decl.Body, func(y ast.Node) bool {
+							if c, ok := y.(*ast.CallExpr); ok {
+								if f, ok := calleeFunc(info, c); ok && examiners[FuncKey(f)] {
+									for _, a := range c.Args {
+										if ObjOf(info, a) == o {
+											okR = true
+										}
+									}
+								}
+							}
+							return !okR
+						})
+					}
+				}
+			}
+			r.Check(rule, "cosmos:batch-response-examined:"+ShortFn(fn.Key)+"#"+itoa(ord[fn.Key]), call.Pos(), okR,
+				"%s executes a transactional batch and %s: a batch the service refused as a whole comes back with a nil error, so the call reports success although nothing was applied", ShortFn(fn.Key), why)
+			return true
+		})
+	}
+	if n == 0 {
+		r.Unresolved(rule, "ExecuteTransactionalBatch calls")
+	}
+}
